@@ -237,6 +237,7 @@ type half struct {
 	wclosed bool // writer closed: reader drains then sees EOF
 	rclosed bool // reader closed: writer fails
 	reset   bool
+	stalled bool // the reading process does not take anything (harness controlled)
 	wait    chan struct{}
 	wlock   zsync.Mutex
 	tap     []byte // every byte ever accepted
@@ -310,6 +311,18 @@ func (c *Conn) ReadMarks() []Mark {
 	h.mu.Lock()
 	defer h.mu.Unlock()
 	return append([]Mark(nil), h.rmarks...)
+}
+
+// StallReads makes this side stop taking data from the connection (a process
+// that is not scheduled, or stuck elsewhere): its reads wait, the peer's
+// writes fill the buffer and then block. A reset or a local Close still ends
+// a stalled read.
+func (c *Conn) StallReads(b bool) {
+	h := c.rd
+	h.mu.Lock()
+	h.stalled = b
+	h.broadcast()
+	h.mu.Unlock()
 }
 
 // Dead tells whether the connection was closed by either side or reset.
@@ -461,7 +474,7 @@ func (c *Conn) Read(p []byte) (int, error) {
 			h.mu.Unlock()
 			return 0, ErrReset
 		}
-		if len(h.buf) > 0 && len(p) > 0 {
+		if len(h.buf) > 0 && len(p) > 0 && !h.stalled {
 			avail := len(h.buf)
 			if avail > len(p) {
 				avail = len(p)
@@ -497,7 +510,7 @@ func (c *Conn) Read(p []byte) (int, error) {
 			h.mu.Unlock()
 			return 0, nil
 		}
-		if h.wclosed {
+		if h.wclosed && !h.stalled {
 			h.mu.Unlock()
 			return 0, io.EOF
 		}
